@@ -7,7 +7,7 @@ from typing import Any, Iterable
 
 from ..runner import CheckBase, Violation
 from .c08 import gen_c08_base
-from .common import CAUSES, gen_knobs, gen_net, gen_transport, pick, with_cause
+from .common import make_rejecting, CAUSES, gen_knobs, gen_net, gen_transport, pick, with_cause
 from .hist import HARNESS_STEPS, Index
 
 EPS = 1e-6
@@ -48,6 +48,9 @@ def op_bound(op: Any, scn: dict) -> float | None:
         return 60.0
     if op.do in ("disconnect", "conn.disconnect"):
         return 15.0
+    if op.do == "ble.connect":
+        # its own timeout, then the disconnect it issues for the address with that call's timeout
+        return float(op.args.get("timeout", 30.0)) + float(op.args.get("disconnect_timeout", 20.0))
     if op.do in HARNESS_STEPS:
         return None
     return 0.0  # synchronous API calls
@@ -150,6 +153,11 @@ def first_cause_oracle(ix: Index) -> list[Violation]:
                 continue
             if op.do in ("disconnect",):
                 continue
+            if op.do in ("connect", "finish") and err.get("cls") in ("APIConnectionError", "BadNameAPIError", "InvalidAuthAPIError") and any((T is None or sq < T) and mt in (2, 4) for sq, mt, _d, _st, _tn, _t in ix.pp.get(c, [])):
+                # the library's own verdict about a hello/login answer that was handed over before the fault closed the connection: that
+                # answer is the earlier cause in stream order (the phase judges it when its task runs next)
+                if err.get("cls") != "APIConnectionError" or "Incompatible API version" in (err.get("text") or ""):
+                    continue
             ids_in_chain = [x.get("fault") for x in err.get("chain", []) if x.get("fault")]
             # a synchronously raising write in the turn of the first cause: processing an earlier frame of the same chunk
             # may have hit it before the later bytes were even parsed - either cause is legitimate for the waiter
@@ -157,6 +165,12 @@ def first_cause_oracle(ix: Index) -> list[Violation]:
                 continue
             if sig1 == "write_raise" and any(sg != "write_raise" and kk[0] == k1[0] for kk, _j, sg, _d, _f in causes):
                 continue  # same turn as another cause: which one the library met first depends on what it was processing
+            if op.do == "ble.connect":
+                # (one discriminator for this call: it is not woken by the close at all, see the recorded finding)
+                ok = bool(ids_in_chain) if sig1 in ("oserror", "send_oserror", "write_raise") else _sig_ok(sig1, det1, err, ix, fd1)[0]
+                if not ok:
+                    out.append(Violation("first-cause", "ble.connect", f"bluetooth_device_connect() in flight when {sig1} was delivered first, but it raised {err.get('cls')}: {err.get('text')}"))
+                continue
             if sig1 in ("oserror", "send_oserror", "write_raise"):
                 if not ids_in_chain:
                     out.append(Violation("first-cause", f"{sig1}:lost", f"{op.do} failed with {err.get('cls')} ({err.get('text')}) without the injected {det1} in its cause chain"))
@@ -298,8 +312,8 @@ def gen_raiser_case(rng: random.Random) -> dict:
 class C09(CheckBase):
     pid = "C09"
     level = "fault_enumeration"
-    quick_cases = 144
-    thorough_cases = 1440
+    quick_cases = 240
+    thorough_cases = 2400
 
     def cases(self, rng: random.Random, tier: str, idx: int) -> Iterable[dict]:
         from ..engine import run_scenario
@@ -307,6 +321,13 @@ class C09(CheckBase):
         r = idx % 4
         if r == 0:
             base = gen_c08_base(rng)
+            if idx % 3 == 0:
+                # the attempt is refused by a verdict of the library itself; every cause is swept over its turns too
+                make_rejecting(base, rng)
+            if idx % 7 == 3:
+                # an awaited request whose message is larger than anything the device expects (and, encrypted, larger than a
+                # frame can carry): whatever becomes of it, the caller gets a classified error or its timeout
+                base["actors"].append({"id": "big", "at": {"on": "state", "match": {"new": "CONNECTED"}, "delay": pick(rng, [0.0, 0.01])}, "steps": [{"do": "request", "msgs": [["HomeAssistantStateResponse", {"entity_id": "a.b", "state": {"gen": [pick(rng, [65600, 70000, 140000]), 3]}}]], "types": ["SubscribeLogsResponse"], "stop": {"p": "never"}, "timeout": 3.0}]})
             yield base
             T = run_scenario(base).turns
             causes = CAUSES if tier == "thorough" else rng.sample(CAUSES, 5)
@@ -318,6 +339,8 @@ class C09(CheckBase):
         elif r == 1:
             # ordered pairs of faults, same turn and apart, both orders
             base = gen_c08_base(rng)
+            if idx % 5 == 0:
+                make_rejecting(base, rng)
             T = run_scenario(base).turns
             for _ in range(40 if tier == "quick" else 150):
                 n = rng.randint(1, T)
